@@ -55,6 +55,16 @@ func (p *c11Pool) run1(code string, a, b int, stack ...goat.Value) (out []goat.V
 	return st, err
 }
 
+func (p *c11Pool) runC(code string, a, b, cc int, stack ...goat.Value) (out []goat.Value, err error) {
+	defer func() {
+		if r := recover(); r != nil {
+			err = fmt.Errorf("PANIC %v", r)
+		}
+	}()
+	_, st, err := p.vm.VerifRun([]goat.VerifInstr{{Code: code, A: a, B: b, C: cc, Line: 1}}, 0, nil, stack)
+	return st, err
+}
+
 func try(f func()) (err error) {
 	defer func() {
 		if r := recover(); r != nil {
@@ -330,13 +340,30 @@ func (c *Ctx) c11History(nops int) (lines, impl []string) {
 				fmt.Sprintf("ok len=%d cap=%d", res.Len(), res.VerifSliceCap()))
 		default: // copy
 			d := Pick(r, lv)
-			_, err := p.run1("COPY", 0, 0, p.vars[d], uv)
+			// half of the copies ask for the result (COPY with C = 1 pushes the count: C11.copy_count)
+			wantCount := r.Bool()
+			var st []goat.Value
+			var err error
+			if wantCount {
+				st, err = p.runC("COPY", 0, 0, 1, p.vars[d], uv)
+			} else {
+				st, err = p.run1("COPY", 0, 0, p.vars[d], uv)
+			}
 			res := "ok"
-			if err != nil {
+			switch {
+			case err != nil:
 				res = fmt.Sprint("err ", err)
+			case wantCount && len(st) == 1:
+				res = fmt.Sprintf("ok n=%d", st[0].Int())
+			case wantCount || len(st) != 0:
+				res = fmt.Sprintf("bad stack after COPY: %d values", len(st))
 			}
 			c.Rep.Count("copy")
-			emit(fmt.Sprintf("slice copy %s %s", d, u), res)
+			if wantCount {
+				emit(fmt.Sprintf("slice copyn %s %s", d, u), res)
+			} else {
+				emit(fmt.Sprintf("slice copy %s %s", d, u), res)
+			}
 		}
 	}
 	return
